@@ -458,9 +458,13 @@ PROPS = {
         "suites": [("strong", 400, 8000)],
         "rule": "seeded program pairs x {independent, sequential} x {universal, forward, backward} x {mu, tau-star} x simplify x eq-break; StrongEquivalenceTask::decompose "
                 "vs Lean `strongProblems`: problem names, formula names, roles and formula trees all equal",
-        "level_text": "Partial: gamma_direction_refutes proves the gamma/decomposition core (for either decomposition some problem of a direction is refuted by the merged "
-                      "interpretation iff transition axioms hold, (H,T) satisfies all left formulas and fails a right one), built on C05 and C19; the translation step (C01/C08), "
-                      "simplification (C07 classic part) and symbol renaming are tied by exact correspondence of the whole pipeline.",
+        "level_text": "Full for the tau-star representation (all decompositions, directions, simplify and eq-break flags): strong_refutes - some emitted problem is refuted by the "
+                      "classical interpretation merging (H,T) iff H subset T on the programs' predicates and (H,T) satisfies one program but not the other in a requested direction; "
+                      "strongly_equivalent_iff - no emitted problem of a universal task has a standard countermodel iff the programs have the same HT models; strong_refutes_needs_sub - "
+                      "an interpretation with H not-subset T on a program predicate refutes nothing (any representation, any flags). Composes C01 (tau_star_correct), C07 (ht and classic portfolios), "
+                      "C05 (gamma_correct), C19 (eq-break, decompositions) and the semantics of the transition axioms. Hypotheses, all explicit: pass bound sufficed, no usize overflow, "
+                      "rename_conflicting_symbols is the identity on the assembled problems (NoSymbolConflict), and with simplification on H subset T everywhere. Partial: the mu representation "
+                      "(needs C08 NaturalCorrect) is tied by correspondence only.",
         "level_note": PROOF_NOTE,
         "technique": "Lean 4 proof by composition (gamma_correct + decomposition theorems) + end-to-end differential correspondence",
         "design_ref": "DESIGN.md 6/C03",
